@@ -94,6 +94,9 @@ func (c *Ctx) mapRule(rule string) string {
 }
 
 func (c *Ctx) record(rule, key, status string, p token.Pos, note string, nontrivial bool) {
+	if c.KeyOnly != nil && !c.KeyOnly(key) {
+		return
+	}
 	rule = c.mapRule(rule)
 	if prev := c.seen(rule, key); prev != nil {
 		if prev.Status == status || status == "HOLDS" || status == "EXCEPTION" {
@@ -126,11 +129,17 @@ func (c *Ctx) present(rule, key string, p token.Pos, note string) {
 // defect (for example a recursion rewritten as a loop). It is listed in the
 // evidence and does not alarm.
 func (c *Ctx) notDecided(rule, key string, p token.Pos, reason string) {
+	if c.KeyOnly != nil && !c.KeyOnly(key) {
+		return
+	}
 	c.record(rule, key, "NOT-DECIDED", p, reason, true)
 	c.NotDecided = append(c.NotDecided, fmt.Sprintf("%s:%s — %s", c.mapRule(rule), key, reason))
 }
 
 func (c *Ctx) exception(rule, key string, p token.Pos, reason string) {
+	if c.KeyOnly != nil && !c.KeyOnly(key) {
+		return
+	}
 	c.record(rule, key, "EXCEPTION", p, reason, true)
 	e := fmt.Sprintf("%s:%s — %s", rule, key, reason)
 	for _, x := range c.Exceptions {
@@ -142,6 +151,9 @@ func (c *Ctx) exception(rule, key string, p token.Pos, reason string) {
 }
 
 func (c *Ctx) addFinding(kind, rule, key string, p token.Pos, fn, msg string, detail []string) {
+	if c.KeyOnly != nil && !c.KeyOnly(key) {
+		return
+	}
 	rule = c.mapRule(rule)
 	for _, f := range c.Findings {
 		if f.Rule == rule && f.Key == key {
